@@ -690,6 +690,12 @@ impl<'a, W: Write> YamlSerializer<'a, W> {
     /// Internal: called by most emitters before writing tokens.
     #[inline]
     fn write_indent(&mut self, depth: usize) -> Result<()> {
+        self.write_indent_cols(self.indent_step * depth)
+    }
+
+    /// Like `write_indent`, with the indentation given in columns instead of levels.
+    #[inline]
+    fn write_indent_cols(&mut self, cols: usize) -> Result<()> {
         self.after_kept_line_breaks = false;
         if self.at_line_start {
             if !self.doc_started {
@@ -701,7 +707,7 @@ impl<'a, W: Write> YamlSerializer<'a, W> {
                     self.at_line_start = true;
                 }
             }
-            for _k in 0..self.indent_step * depth {
+            for _k in 0..cols {
                 self.out.write_char(' ')?;
             }
             self.at_line_start = false;
@@ -1507,6 +1513,7 @@ impl<'a, 'b, W: Write> Serializer for &'a mut YamlSerializer<'b, W> {
                 flow: true,
                 first: true,
                 after_anchor: false,
+                item_col: None,
             })
         } else {
             // Block sequence. Decide indentation based on whether this is after a map key or after a list dash.
@@ -1581,6 +1588,7 @@ impl<'a, 'b, W: Write> Serializer for &'a mut YamlSerializer<'b, W> {
                 flow: false,
                 first: true,
                 after_anchor,
+                item_col: None,
             })
         }
     }
@@ -1622,6 +1630,7 @@ impl<'a, 'b, W: Write> Serializer for &'a mut YamlSerializer<'b, W> {
                 depth: 0,
                 flow: true,
                 first: true,
+                item_col: None,
             });
         }
         // Same placement rules as for struct variants; the fields are then written as a block
@@ -1660,6 +1669,7 @@ impl<'a, 'b, W: Write> Serializer for &'a mut YamlSerializer<'b, W> {
             depth: depth_next,
             flow: false,
             first: true,
+            item_col: None,
         })
     }
 
@@ -1684,6 +1694,7 @@ impl<'a, 'b, W: Write> Serializer for &'a mut YamlSerializer<'b, W> {
                 align_after_dash: false,
                 inline_value_start: false,
                 entry_col: 0,
+                first_entry_col: None,
             })
         } else {
             let inline_first = self.pending_inline_map;
@@ -1765,6 +1776,7 @@ impl<'a, 'b, W: Write> Serializer for &'a mut YamlSerializer<'b, W> {
                 align_after_dash: inline_first,
                 inline_value_start: inline_value_start_flag,
                 entry_col: 0,
+                first_entry_col: None,
             })
         }
     }
@@ -1865,6 +1877,10 @@ pub struct SeqSer<'a, 'b, W: Write> {
     /// Whether the anchor of this (block) sequence was just written and the line is still open:
     /// items start on the next line, while an empty sequence continues with ` []`.
     after_anchor: bool,
+    /// Column of the dash of the first item (block style), once it is written. The following
+    /// dashes go to the same column: when the first one was written inline (`- - a`, `? - a`)
+    /// that is not the column the indentation depth stands for unless `indent_step` is 2.
+    item_col: Option<usize>,
 }
 
 impl<'a, 'b, W: Write> SerializeTuple for SeqSer<'a, 'b, W> {
@@ -1916,10 +1932,13 @@ impl<'a, 'b, W: Write> SerializeSeq for SeqSer<'a, 'b, W> {
                 // Inline the first element of this nested sequence right after the outer dash
                 // (either we are already mid-line, or the parent staged inline via pending_inline_map).
                 // Do not write indentation here.
+            } else if let Some(col) = self.item_col {
+                self.ser.write_indent_cols(col)?;
             } else {
                 self.ser.write_indent(self.depth)?;
             }
             let dash_col = self.ser.out.col;
+            self.item_col = Some(dash_col);
             self.ser.out.write_str("- ")?;
             self.ser.at_line_start = false;
             if self.first && self.ser.inline_map_after_dash {
@@ -1998,6 +2017,7 @@ pub struct TupleSer<'a, 'b, W: Write> {
     /// (see [`SeqSer`]).
     flow_for_normal: bool,
     after_anchor_for_normal: bool,
+    item_col_for_normal: Option<usize>,
 
     // ---- Extra fields for refactoring/perf/correctness ----
     /// For strong anchors: if Some(id) then we must emit an alias instead of a definition at field #2.
@@ -2027,6 +2047,7 @@ impl<'a, 'b, W: Write> TupleSer<'a, 'b, W> {
             depth_for_normal: seq.depth,
             flow_for_normal: seq.flow,
             after_anchor_for_normal: seq.after_anchor,
+            item_col_for_normal: seq.item_col,
             strong_alias_id: None,
             weak_present: false,
             skip_third: false,
@@ -2042,6 +2063,7 @@ impl<'a, 'b, W: Write> TupleSer<'a, 'b, W> {
             flow: self.flow_for_normal,
             first: self.idx == 0,
             after_anchor: self.after_anchor_for_normal,
+            item_col: self.item_col_for_normal,
         }
     }
     /// Create a tuple serializer for internal strong-anchor payloads.
@@ -2053,6 +2075,7 @@ impl<'a, 'b, W: Write> TupleSer<'a, 'b, W> {
             depth_for_normal: 0,
             flow_for_normal: false,
             after_anchor_for_normal: false,
+            item_col_for_normal: None,
             strong_alias_id: None,
             weak_present: false,
             skip_third: false,
@@ -2069,6 +2092,7 @@ impl<'a, 'b, W: Write> TupleSer<'a, 'b, W> {
             depth_for_normal: 0,
             flow_for_normal: false,
             after_anchor_for_normal: false,
+            item_col_for_normal: None,
             strong_alias_id: None,
             weak_present: false,
             skip_third: false,
@@ -2085,6 +2109,7 @@ impl<'a, 'b, W: Write> TupleSer<'a, 'b, W> {
             depth_for_normal: 0,
             flow_for_normal: false,
             after_anchor_for_normal: false,
+            item_col_for_normal: None,
             strong_alias_id: None,
             weak_present: false,
             skip_third: false,
@@ -2101,7 +2126,10 @@ impl<'a, 'b, W: Write> SerializeTupleStruct for TupleSer<'a, 'b, W> {
     fn serialize_field<T: ?Sized + Serialize>(&mut self, value: &T) -> Result<()> {
         match self.kind {
             TupleKind::Normal => {
-                SerializeSeq::serialize_element(&mut self.as_seq(), value)?;
+                let mut seq = self.as_seq();
+                let result = SerializeSeq::serialize_element(&mut seq, value);
+                self.item_col_for_normal = seq.item_col;
+                result?;
             }
             TupleKind::AnchorStrong => {
                 match self.idx {
@@ -2235,6 +2263,8 @@ pub struct TupleVariantSer<'a, 'b, W: Write> {
     flow: bool,
     /// Whether the next field is the first.
     first: bool,
+    /// Column of the dash of the first field, once it is written (see [`SeqSer`]).
+    item_col: Option<usize>,
 }
 impl<'b, W: Write> TupleVariantSer<'_, 'b, W> {
     /// The fields are written as a block sequence: the sequence serializer in its current state.
@@ -2245,6 +2275,7 @@ impl<'b, W: Write> TupleVariantSer<'_, 'b, W> {
             flow: self.flow,
             first: self.first,
             after_anchor: false,
+            item_col: self.item_col,
         }
     }
 }
@@ -2253,9 +2284,11 @@ impl<'a, 'b, W: Write> SerializeTupleVariant for TupleVariantSer<'a, 'b, W> {
     type Error = Error;
 
     fn serialize_field<T: ?Sized + Serialize>(&mut self, value: &T) -> Result<()> {
-        SerializeSeq::serialize_element(&mut self.as_seq(), value)?;
+        let mut seq = self.as_seq();
+        let result = SerializeSeq::serialize_element(&mut seq, value);
+        self.item_col = seq.item_col;
         self.first = false;
-        Ok(())
+        result
     }
     fn end(mut self) -> Result<()> {
         SerializeSeq::end(self.as_seq())?;
@@ -2297,6 +2330,32 @@ pub struct MapSer<'a, 'b, W: Write> {
     inline_value_start: bool,
     /// Column at which the current entry (its key, or the `?` of a complex key) starts.
     entry_col: usize,
+    /// Column at which the first entry started (block style), once it is written. The following
+    /// entries go to the same column: when the first one was written inline (`- a: 1`,
+    /// `? a: 1`, `: a: 1`) that is not the column the indentation depth stands for unless
+    /// `indent_step` is 2.
+    first_entry_col: Option<usize>,
+}
+
+impl<W: Write> MapSer<'_, '_, W> {
+    /// Block style: move to the column where the next entry starts (nothing to do for a first
+    /// entry that continues the current line) and remember it.
+    fn start_entry(&mut self) -> Result<()> {
+        if let Some(col) = self.first_entry_col {
+            self.ser.write_indent_cols(col)?;
+        } else if self.align_after_dash && self.ser.at_line_start {
+            // This map belongs to a sequence item whose dash is not on this line (an anchor
+            // came in between): align as if the first key had followed the dash.
+            let base = self.depth.saturating_sub(1);
+            self.ser
+                .write_indent_cols(self.ser.indent_step * base + 2)?; // width of "- "
+        } else {
+            self.ser.write_indent(self.depth)?;
+        }
+        self.entry_col = self.ser.out.col;
+        self.first_entry_col = Some(self.entry_col);
+        Ok(())
+    }
 }
 
 impl<'a, 'b, W: Write> SerializeMap for MapSer<'a, 'b, W> {
@@ -2338,19 +2397,7 @@ impl<'a, 'b, W: Write> SerializeMap for MapSer<'a, 'b, W> {
 
             match scalar_key_to_string(key, self.ser.yaml_12) {
                 Ok(text) => {
-                    // Indent continuation lines. If this map started inline after a dash,
-                    // align under the first key by adding two spaces instead of a full indent step.
-                    if self.align_after_dash && self.ser.at_line_start {
-                        let base = self.depth.saturating_sub(1);
-                        for _ in 0..self.ser.indent_step * base {
-                            self.ser.out.write_char(' ')?;
-                        }
-                        self.ser.out.write_str("  ")?; // width of "- "
-                        self.ser.at_line_start = false;
-                    } else {
-                        self.ser.write_indent(self.depth)?;
-                    }
-                    self.entry_col = self.ser.out.col;
+                    self.start_entry()?;
                     if text.chars().count() > MAX_IMPLICIT_KEY_CHARS {
                         // Too long for an implicit key: write `? key` and let the value follow
                         // on its own `: value` line, as for complex keys.
@@ -2369,8 +2416,7 @@ impl<'a, 'b, W: Write> SerializeMap for MapSer<'a, 'b, W> {
                 }
                 Err(Error::Unexpected { msg }) if msg == "non-scalar key" => {
                     self.ser.write_anchor_for_complex_node()?;
-                    self.ser.write_indent(self.depth)?;
-                    self.entry_col = self.ser.out.col;
+                    self.start_entry()?;
                     self.ser.out.write_str("? ")?;
                     self.ser.at_line_start = false;
 
@@ -2414,16 +2460,8 @@ impl<'a, 'b, W: Write> SerializeMap for MapSer<'a, 'b, W> {
             let saved_pending_inline_map = self.ser.pending_inline_map;
             let saved_depth = self.ser.depth;
             if self.last_key_complex {
-                if self.align_after_dash && self.ser.at_line_start {
-                    let base = self.depth.saturating_sub(1);
-                    for _ in 0..self.ser.indent_step * base {
-                        self.ser.out.write_char(' ')?;
-                    }
-                    self.ser.out.write_str("  ")?;
-                    self.ser.at_line_start = false;
-                } else {
-                    self.ser.write_indent(self.depth)?;
-                }
+                // The `:` goes under the `?` of this entry.
+                self.ser.write_indent_cols(self.entry_col)?;
                 self.ser.out.write_str(":")?;
                 self.ser.pending_space_after_colon = true;
                 self.ser.pending_inline_map = true;
